@@ -606,8 +606,14 @@ func (g *docGen) mutateBytes(s string) string {
 			continue
 		case 6: // lone CR
 			i := g.r.Intn(len(lines))
-			// a line break of YAML that pint does not count: lone CR, NEL, LS, PS
-			lines[i] += pick(g.r, []string{"\r", "\r", "\u0085", "\u2028", "\u2029"})
+			// a line break of YAML that pint does not count (lone CR, NEL, LS, PS): in place of the LF after line i,
+			// or appended to the line (CR + LF = CRLF, which both count alike)
+			br := pick(g.r, []string{"\r", "\r", "\u0085", "\u2028", "\u2029"})
+			if i+1 < len(lines) && g.chance(0.7) {
+				lines = append(lines[:i:i], append([]string{lines[i] + br + lines[i+1]}, lines[i+2:]...)...)
+			} else {
+				lines[i] += br
+			}
 			g.note("mut:cr")
 		case 7: // truncate
 			s = strings.Join(lines, "\n")
